@@ -437,6 +437,13 @@ LABEL_SMILES = ['C', 'CC', 'C=C', 'C#C', 'C=C=C', 'c1ccccc1', 'C1CC1', 'C1CC2CCC
                 'C#CC#C', 'C=CC=C', 'c1cc[nH]c1', 'FC(F)(F)F', 'C1=CC=CC=C1', '[Na+].[Cl-]', 'CC(C)(C)C', 'C1CC1C1CC1', 'B1OB1']
 
 
+def hash_seq(seq):
+    h = 0
+    for x in seq:
+        h = h * 7 + x
+    return h
+
+
 def label_molecules(ck):
     from chython import smiles
     mols = []
@@ -454,11 +461,42 @@ def label_molecules(ck):
         for n, k in pairs:
             m.add_bond(n, k, 8)
         mols.append((smi + ' +special' + repr(pairs), m))
+    # atoms that have aromatic bonds AND an exocyclic multiple bond, in every position of the bond table (the ring closed on the
+    # atom before or after the '=O', the '=O' in a branch between the ring bonds, or written first)
+    for smi in ('c1ccc[nH]c1=O', 'Cn1ccccc1=O', 'O=c1cccc[nH]1', 'c1cc(=O)cc[nH]1', 'O=c1cc[nH]ccc1=O', 'c1ccs(=O)c1', 'O=c1[nH]c(=O)c2ccccc2[nH]1',
+                'c1ccoc(=O)c1', 'c12ccccc1c(=O)[nH]c2=O', 'c1ccc(=C)cc1', 'C=c1cccc[nH]1', 'c1cc[n+](=O)cc1', 'c1ccp(#N)cc1', 'N#p1ccccc1'):
+        try:
+            mols.append((smi, smiles(smi)))
+        except Exception:
+            pass
+    # every sequence of at most four bond orders around one atom (exhaustive: 5 + 25 + 125 + 625 stars), built through the API so
+    # that the bond table has exactly that order; neighbours alternate C, O, H, N
+    from chython import MoleculeContainer
+    import itertools as _it
+    for k in (1, 2, 3, 4):
+        for seq in _it.product((1, 2, 3, 4, 8), repeat=k):
+            if ck.tier == 'quick' and k == 4 and (hash_seq(seq) + ck.seed) % 3:
+                continue
+            m = MoleculeContainer()
+            c = m.add_atom('C')
+            for i, o in enumerate(seq):
+                m.add_bond(c, m.add_atom(('C', 'O', 'H', 'N')[i % 4]), o)
+            mols.append(('star' + ''.join(map(str, seq)), m))
     m = smiles('C1CCCCC1')
     m.delete_bond(1, 2)
     m.add_bond(1, 2, 8)        # a ring closed only by a special bond is no ring
     mols.append(('C1CCCCC1 with 1-2 special', m))
     return mols
+
+
+def label_replay(name, n):
+    if name.startswith('star'):
+        seq = [int(c) for c in name[4:]]
+        return ("from chython import MoleculeContainer\nm=MoleculeContainer(); c=m.add_atom('C')\n"
+                f"for i, o in enumerate({seq}): m.add_bond(c, m.add_atom(('C','O','H','N')[i % 4]), o)\n"
+                "m.calc_labels(); a=m.atom(c); print(a.neighbors,a.heteroatoms,a.hybridization,a.explicit_hydrogens)")
+    return (f"from chython import smiles\nm=smiles({name.split()[0]!r}); a=m.atom({n}); "
+            "print(a.neighbors,a.heteroatoms,a.hybridization,a.explicit_hydrogens,a.in_ring,a.ring_sizes)")
 
 
 def ref_labels(m):
@@ -497,7 +535,7 @@ def corr_labels(ck):
             if row[:4] != ref[n] or row[4] != bool(want_sizes) or row[5] != want_sizes:
                 ck.counterexample(f'labels:{"ring" if row[:4] == ref[n] else "counts"}', 'calc_labels disagrees with the documented definition of neighbors / heteroatoms / hybridization / explicit hydrogens / ring sizes',
                                   {'molecule': name, 'atom': n}, row, ref[n] + (bool(want_sizes), want_sizes), 'recount from the raw graph and the SSSR',
-                                  replay_py=f"from chython import smiles\nm=smiles({name.split()[0]!r}); a=m.atom({n}); print(a.neighbors,a.heteroatoms,a.hybridization,a.explicit_hydrogens,a.in_ring,a.ring_sizes)")
+                                  replay_py=label_replay(name, n))
         for n, k, bd in m.bonds():
             brows.append((n, k, bd.in_ring))
             brows.append((k, n, bd.in_ring))
@@ -1182,7 +1220,8 @@ def search_rdkit(ck):
     from rdkit import RDLogger
     RDLogger.DisableLog('rdApp.*')
     pool = ['c1ccccc1C(=O)O', 'C1CC1CC#N', 'C[N+](C)(C)CC([O-])=O', 'C1CC2CCC1CC2', 'O=C1NC=CC=C1', 'ClC(Cl)=C=C', 'c1ccc2[nH]ccc2c1', 'FC(F)(F)c1ccncc1',
-            '[13CH3]O', 'CS(=O)(=O)N', 'C1CCCCCCC1', 'C12CC1C2'] + corpus.sample(corpus.lipo(), 110 if ck.tier == 'quick' else 1500, ck.seed, 'c08-rdkit')
+            '[13CH3]O', 'CS(=O)(=O)N', 'C1CCCCCCC1', 'C12CC1C2', 'c1ccc[nH]c1=O', 'Cn1ccccc1=O', 'O=c1cccc[nH]1', 'c1cc(=O)cc[nH]1',
+            'O=c1[nH]c(=O)c2ccccc2[nH]1', 'c1ccoc(=O)c1'] + corpus.sample(corpus.lipo(), 110 if ck.tier == 'quick' else 1500, ck.seed, 'c08-rdkit')
     qcache = {}
     def query(text):
         """the query of a documented SMARTS; None (and a counterexample) when the implementation rejects it"""
